@@ -17,8 +17,14 @@ for m in sorted(glob.glob(os.path.join(wt, 'out', 'mutant*'))):
     d = os.path.dirname(place)
     existed = os.path.isdir(os.path.join(wt, d))
     cleanup = f'rm -f {place}' if existed else f'rm -rf {d}'
-    r = subprocess.run(['/verif/tools/confirm_mutant.sh', wt, m, f'mkdir -p {d} && cp {m}/demo.rs {place}', cmd, cleanup], capture_output=True, text=True)
-    conf = (r.stdout.strip().split('\n') or ['?'])[-1]
+    conf = '?'
+    if not os.environ.get('CHECK_ONLY'):
+        r = subprocess.run(['/verif/tools/confirm_mutant.sh', wt, m, f'mkdir -p {d} && cp {m}/demo.rs {place}', cmd, cleanup], capture_output=True, text=True)
+        conf = (r.stdout.strip().split('\n') or ['?'])[-1]
+    if os.environ.get('CONFIRM_ONLY'):
+        print(f'{pid} {name}: {conf}'); continue
+    if os.environ.get('CHECK_ONLY'):
+        conf = '(confirmed separately)'
     t = subprocess.run(['/verif/tools/try_patch.sh', pid, os.path.join(m, 'patch.diff')], capture_output=True, text=True)
     lines = [l for l in t.stdout.split('\n') if l.strip()]
     verdict = 'CAUGHT' if any('VIOLATION' in l for l in lines) else ('MISSED' if any(l.startswith('OK') for l in lines) else 'ERR ' + ' '.join(lines)[:200])
